@@ -400,6 +400,11 @@ class Tr:
                 return v if op == "==" else f"(!{v})"
             if op in ("&&", "||"):
                 return f"({self.expr(a)} {op} {self.expr(b)})"
+            if getattr(self, "null_style", "nonnull") == "null9" and op in ("==", "!="):
+                na, nb = self.is_null(a), self.is_null(b)
+                if na != nb:
+                    e = self.fv(self.ptr_name9(b if na else a) + "_null", "Bool")
+                    return e if op == "==" else f"(!{e})"
             ta, tb, tr = ctype(a), ctype(b), ctype(n)
             if ta[0] == "ptr" and tb[0] == "ptr" and op in ("==", "!="):
                 # comparison of a named pointer with nullptr
@@ -575,12 +580,16 @@ class Tr:
 
     def is_null(self, x):
         while x.get("kind") in ("ImplicitCastExpr", "ParenExpr", "CStyleCastExpr") and x.get("inner"):
+            if x.get("castKind") == "NullToPointer":      # the literal `0` used as a null pointer
+                return True
             x = x["inner"][-1]
         return x.get("kind") in ("CXXNullPtrLiteralExpr", "GNUNullExpr")
 
     def is_nullptr(self, n):
         x = n
         while x.get("kind") in ("ImplicitCastExpr", "ParenExpr", "CStyleCastExpr") and x.get("inner"):
+            if x.get("castKind") == "NullToPointer":      # `0 != p`
+                return True
             x = x["inner"][-1]
         return x.get("kind") in ("CXXNullPtrLiteralExpr", "GNUNullExpr")
 
@@ -682,6 +691,27 @@ class Tr:
             if labels:
                 out += "if (" + " || ".join(f"{es} == {l}" for l in labels) + f") then {i} else\n"
         return out + str(dflt_ix)
+    def ptr_name9(self, x):
+        """name for a pointer-valued variable / member / argument-less getter call"""
+        while x.get("kind") in ("ParenExpr", "ImplicitCastExpr") and x.get("inner"):
+            x = x["inner"][-1]
+        try:
+            if ctype(x)[0] != "ptr":
+                raise Broken("null compared with a non-pointer")
+        except Broken:
+            raise
+        if x.get("kind") == "DeclRefExpr":
+            return lname(x.get("referencedDecl", {}).get("name", "ptr"))
+        if x.get("kind") == "MemberExpr":
+            return lname(x.get("name", "ptr"))
+        if x.get("kind") == "CXXMemberCallExpr" and len(x.get("inner", [])) == 1:
+            callee = x["inner"][0]
+            pre = ""
+            base = callee.get("inner", [])
+            if base and base[0]["kind"] != "CXXThisExpr":
+                pre = self.obj_name(base[0])
+            return lname((pre + "_" if pre else "") + re.sub(r"^get_", "", callee.get("name", "ptr")))
+        raise Broken("pointer expression compared with null")
 
     def shift_amount(self, b, eb):
         x = b
@@ -922,6 +952,11 @@ def find_function(docs, spec):
         qt = n.get("type", {}).get("qualType", "")
         if "<dependent type>" in json.dumps(n)[:200000] and "targs" not in spec and "<dependent type>" in json.dumps(n):
             continue
+        if "margs" in spec:   # arguments of an instantiated *member* template (e.g. generic_get_symbol<Elf32_Sym>)
+            ma = [re.sub(r"^ELFIO::", "", a.get("type", {}).get("qualType", ""))
+                  for a in n.get("inner", []) if a.get("kind") == "TemplateArgument"]
+            if ma != spec["margs"]:
+                continue
         if "params" in spec:
             ps = [re.sub(r"\b(const|ELFIO::)\b", "", p.get("type", {}).get("qualType", "")).replace("&", "").strip()
                   for p in n.get("inner", []) if p.get("kind") == "ParmVarDecl"]
@@ -964,16 +999,40 @@ def record_matches(doc, fn, record):
 
 
 def select(fn, sel):
-    """`SELECTOR[/lhs|/rhs]*` : the suffixes descend into the operands of a binary operator
-    (for conditions such as `a >= b || p == nullptr` whose other half is about pointers)."""
+    """`SELECTOR[/step]*` : steps descend from the selected node:
+      `lhs` / `rhs`      operand of a binary operator (c08)
+      `op:OPCODE#k`      k-th BinaryOperator with that opcode inside the current node, pre-order (c09)
+      `arg:i`            i-th child, casts/parentheses skipped (c09)"""
     sel, *path = sel.split("/")
     node = select0(fn, sel)
     for step in path:
-        while node.get("kind") in ("ParenExpr", "ExprWithCleanups") and node.get("inner"):
-            node = strip_comments(node)[-1]
-        if node.get("kind") != "BinaryOperator" or step not in ("lhs", "rhs"):
-            raise Broken(f"selector path /{step} on {node.get('kind')}")
-        node = strip_comments(node)[0 if step == "lhs" else 1]
+        kind, _, arg = step.partition(":")
+        if step in ("lhs", "rhs"):
+            while node.get("kind") in ("ParenExpr", "ExprWithCleanups") and node.get("inner"):
+                node = strip_comments(node)[-1]
+            if node.get("kind") != "BinaryOperator":
+                raise Broken(f"selector path /{step} on {node.get('kind')}")
+            node = strip_comments(node)[0 if step == "lhs" else 1]
+        elif kind == "op":
+            opc, _, nth = arg.partition("#"); nth = int(nth or 0); i = 0; found = None
+            for n in walk(node):
+                if n.get("kind") == "BinaryOperator" and n.get("opcode") == opc:
+                    if i == nth:
+                        found = n; break
+                    i += 1
+            if found is None:
+                raise Broken(f"sub-selector {step}: operator not found")
+            node = found
+        elif kind == "arg":
+            x = node
+            while x.get("kind") in ("ParenExpr", "ImplicitCastExpr", "CStyleCastExpr") and len(strip_comments(x)) == 1:
+                x = strip_comments(x)[0]
+            ch = strip_comments(x)
+            if int(arg) >= len(ch):
+                raise Broken(f"sub-selector {step}: no such child")
+            node = ch[int(arg)]
+        else:
+            raise Broken(f"selector path /{step}")
     return node
 
 
